@@ -11,3 +11,15 @@ more('qbe.c', 'dataitem', 'error', 'initializer is not a constant expression',
      T('decl', 'static long x_ = (long)&h_v - 1;', gcc='an address minus a constant is an address constant in C; cproc folds only address + constant',
        note='binary operator other than +'),
      T('decl', 'static long x_ = 1 + (long)&h_v + (long)&h_v;', note='right operand not a constant'))
+
+# round-10 adversary misses: a check that only runs for EMITTED functions, the exact boundary 2^63, the signedness used by a range test
+more('qbe.c', 'checklabels', 'error', "label '%s' is used but not defined",
+     T('fdecl', 'inline int f_(void) { goto nolabel_; return 0; }', "'nolabel_'", note='an inline definition is parsed but not emitted'),
+     T('fdecl', 'static inline void g_(int x_) { if (x_) goto out_; }', "'out_'"))
+more('eval.c', 'eval', 'error', 'integer part of floating-point constant %g cannot be represented as signed integer',
+     T('decl', 'static long x_ = 9223372036854775808.0;', gcc='undefined behaviour (6.3.1.4), not a constraint: cproc refuses to fold it', note='exactly 2^63'),
+     T('decl', 'static long x_ = -9223372036854777856.0;', gcc='undefined behaviour (6.3.1.4), not a constraint: cproc refuses to fold it', note='the next double below -2^63'))
+more('decl.c', 'tagspec', 'error', "enumerator '%s' value cannot be represented in underlying type",
+     T('decl', 'enum e_ : long { A_ = 0xffffffffffffffffu };', "'A_'", gcc='C23 syntax implemented by cproc; gcc -std=c11 rejects the syntax itself for another reason (still rejected)'),
+     T('decl', 'enum e_ : int { A_ = 18446744073709551488u };', "'A_'", gcc='C23 syntax implemented by cproc; gcc -std=c11 rejects the syntax itself for another reason (still rejected)'),
+     T('decl', 'enum e_ : unsigned { A_ = -1 };', "'A_'", gcc='C23 syntax implemented by cproc; gcc -std=c11 rejects the syntax itself for another reason (still rejected)'))
